@@ -185,15 +185,23 @@ theorem dictGetDefined_sizeOf {kvs : List (List Nat × PyVal)} {k : List Nat} {v
   · simp at h
   · exact dictGet_sizeOf h
 
-/-- `is_iterable(v)`: the items of a list or tuple (other iterables are not modelled) -/
+/-- `is_iterable(v)`: the items of a list, tuple or other iterable — but not of a str, bytes
+or Mapping (`not_iterable_types`), which count as single values. -/
 def PyVal.iterItems : PyVal → Option (List PyVal)
   | .list xs => some xs
   | .tuple xs => some xs
+  | .iter xs => some xs
   | _ => Option.none
 
-/-- `isinstance(v, dict)` -/
+/-- `isinstance(v, dict)`: false for a Mapping that is not a dict -/
 def PyVal.asDict : PyVal → Option (List (List Nat × PyVal))
   | .dict kvs => some kvs
+  | _ => Option.none
+
+/-- `isinstance(v, Mapping)` (what `value_to_literal` tests instead) -/
+def PyVal.asMapping : PyVal → Option (List (List Nat × PyVal))
+  | .dict kvs => some kvs
+  | .mapping kvs => some kvs
   | _ => Option.none
 
 theorem iterItems_sizeOf {v : PyVal} {xs : List PyVal} {x : PyVal}
@@ -204,6 +212,10 @@ theorem iterItems_sizeOf {v : PyVal} {xs : List PyVal} {x : PyVal}
 theorem asDict_sizeOf {v : PyVal} {kvs : List (List Nat × PyVal)}
     (h : v.asDict = some kvs) : sizeOf kvs < sizeOf v := by
   cases v <;> simp [PyVal.asDict] at h; subst h; simp
+
+theorem asMapping_sizeOf {v : PyVal} {kvs : List (List Nat × PyVal)}
+    (h : v.asMapping = some kvs) : sizeOf kvs < sizeOf v := by
+  cases v <;> simp [PyVal.asMapping] at h <;> subst h <;> simp
 
 /-- `coerce_input_value(input_value, type_)` -/
 def coerceValue (c : PyConv) (D : Field → R) (tm : TypeMap) (v : PyVal) (t : InType) : R :=
